@@ -54,7 +54,7 @@ Inductive final :=
 | FBadRequest          (* 400: X-Script-Name without leading slash; negative CONTENT_LENGTH (internal server) *)
 | FPrefixError         (* 500: SCRIPT_NAME without leading slash *)
 | FMethodNotAllowed    (* 405 *)
-| FRedirect (loc : pystr)  (* 301 *)
+| FRedirect (loc : pystr)  (* 301; loc = the URL path handed to httputils.redirect, which percent-encodes it (C18) *)
 | FNotFound            (* 404 .well-known *)
 | FTooLarge            (* 413 *)
 | FError               (* uncaught exception -> 500 *)
@@ -98,7 +98,9 @@ Section Gate.
   Definition request_path (env : environ) (bp : pystr) : pystr :=
     let p := sanitize_path (e_path_info env) in
     if e_forwarded env && nonempty bp
-    then (if startswith p bp then skipn (List.length bp) p else p)
+    then (if startswith (p ++ [slash]) (bp ++ [slash])       (* only at a path-component boundary (commit db03c86) *)
+          then (let r := skipn (List.length bp) p in if nonempty r then r else [slash])
+          else p)
     else p.
 
   Definition external_login (k : auth_kind) (env : environ) : option (pystr * pystr) :=
